@@ -183,9 +183,11 @@ type vfMemPiece struct {
 	b []byte
 }
 
-func (m *vfMemPiece) ReadAt(p []byte, off int64) (int, error) { return bytes.NewReader(m.b).ReadAt(p, off) }
-func (m *vfMemPiece) Close() error                            { return nil }
-func (m *vfMemPiece) Size() int64                             { return int64(len(m.b)) }
+func (m *vfMemPiece) ReadAt(p []byte, off int64) (int, error) {
+	return bytes.NewReader(m.b).ReadAt(p, off)
+}
+func (m *vfMemPiece) Close() error { return nil }
+func (m *vfMemPiece) Size() int64  { return int64(len(m.b)) }
 
 func vfC16eval(c *vfC16Case) error {
 	if c.Mode == "multi" {
